@@ -47,7 +47,7 @@ Print Assumptions C20_removed_only_when_drained.
 Definition K_d2 (bits : N) : cfg :=
   {| c_cap := 1024; c_batch := 51; c_pub := {| on_batch := true; on_drain := true |}; c_dropping := false;
      c_tinit := 4; c_soft := 4; c_hard := 8; c_grace := 0; c_bits := bits; c_refresh2 := true; c_catch_all := true;
-     c_report_first := true; c_bt := {| BT.BTModel.reset_index_in_process := true; BT.BTModel.cap0_guard := true |}; c_bt_catch := true; c_flush_iv := 0 |}.
+     c_report_first := true; c_bt := {| BT.BTModel.reset_index_in_process := true; BT.BTModel.cap0_guard := true |}; c_bt_catch := true; c_flush_iv := 0; c_follow := true |}.
 Definition d2_ops : list op :=
   flat_map (fun t => [F (FClock t {| eid := N.of_nat t; ets := 0; ekind := KLog; elg := 0; elvl := 4; esz := 50; efmt := FOk; enamed := 0 |});
                       F (FReg t); F (FTry t); F (FExit t)]) (seq 0 256).
